@@ -133,6 +133,7 @@ def run_case(case, ctx):
     ref = RefSMT(ks, default)
     smt = cut(SparseMerkleTree, key_size=ks, default=default)
     init = smt.root_hash
+    db0 = smt.db     # the database object of the first tree: every re-opening goes through it
     if init != ref.root({}):
         raise Violation("smt-root", "initial root differs from the reference root of the all-default tree")
     base = int.from_bytes(unhx(case["base"]), "big")
@@ -151,7 +152,7 @@ def run_case(case, ctx):
         k = int.from_bytes(kb, "big")
         if case.get("reopen") and (case["pseed"] + opi) % 3 == 0:
             # carry on through a second object opened on the same database and root
-            smt = cut(SparseMerkleTree.from_db, smt.db, smt.root_hash, key_size=ks, default=default)
+            smt = cut(SparseMerkleTree.from_db, db0, smt.root_hash, key_size=ks, default=default)
             ctx.count("reopened_through_from_db")
         if op[0] == "set":
             v = unhx(op[2])
@@ -188,7 +189,7 @@ def run_case(case, ctx):
         audit(other, oref, mo, odefault, ks, few, ctx)
         audit(smt, ref, m, default, ks, few, ctx)
         ctx.count("two_tree_interleavings")
-        s2 = cut(SparseMerkleTree.from_db, smt.db, smt.root_hash, key_size=ks, default=default)
+        s2 = cut(SparseMerkleTree.from_db, db0, smt.root_hash, key_size=ks, default=default)
         for q in list(m)[:4]:
             qb = q.to_bytes(ks, "big")
             a = cut(s2.get, qb, expect=(KeyError,))
